@@ -41,3 +41,7 @@ static inline unsigned long MOD_ul(unsigned long a, unsigned long b)
 #define DIV_ul(a, b) ((a) / (b))
 #define MOD_ul(a, b) ((a) % (b))
 #endif
+/* int / int and int % int of the code: the C operators in every mode; a spec header that needs an uninterpreted
+ * truncating remainder (C04 roll) #undef's MOD_i under VERIF_UF and supplies its own function + axioms */
+#define DIV_i(a, b) ((a) / (b))
+#define MOD_i(a, b) ((a) % (b))
